@@ -29,9 +29,14 @@ type unfaithful struct {
 	p []any
 	// attributes used by the recognisers of the planner findings
 	typenameField    bool // the key concerned is a __typename selection (in the operation or in the plan)
-	unionTNClass     bool // the object's selection level is in the class of findingUnionTypename
+	level            levelInfo // of the object's selection level
+	crossParent      bool // the object's own field is cross-context merged on its parent's level
+	crossAbove       bool // ... or some enclosing field is
 	absentTypename   bool // key-missing only: the plan selects the key once absent __typename entries are read as the statically known type
 	emptyPossible    bool // possible-types only: the plan node has no PossibleTypes at all
+	planParentConds  bool // the plan has a field with this key that carries ParentOnTypeNames
+	planHasKey       bool // the plan has some field with this key (under whatever conditions)
+	nestedListItem   bool // the object is an item of a list of lists
 }
 
 func (u unfaithful) String() string { return u.kind + "@" + u.path + ": " + u.what }
@@ -60,7 +65,7 @@ func (m *model) faithful(resp *resolve.GraphQLResponse, j *jv) []unfaithful {
 		return nil
 	}
 	rootT := gast.NonNullNamedType(m.rootName(), nil)
-	tv.object(resp.Data, rootT, []gast.SelectionSet{m.op.SelectionSet}, j, nil, nil, nil, true)
+	tv.object(resp.Data, rootT, []gast.SelectionSet{m.op.SelectionSet}, j, nil, nil, nil, true, crossFlags{})
 	return tv.out
 }
 
@@ -97,7 +102,9 @@ func selectedByPlan(obj *resolve.Object, stack []*string) []*resolve.Field {
 	return out
 }
 
-func (tv *tview) node(n resolve.Node, t *gast.Type, sets []gast.SelectionSet, v *jv, stack []*string, rts []string, path []any, key string, isItem bool) {
+type crossFlags struct{ parent, above bool }
+
+func (tv *tview) node(n resolve.Node, t *gast.Type, sets []gast.SelectionSet, v *jv, stack []*string, rts []string, path []any, key string, isItem bool, cf crossFlags) {
 	if n.NodeNullable() == t.NonNull {
 		tv.add(path, "nullability", "plan node %T nullable=%v, declared type %s", n, n.NodeNullable(), t.String())
 	}
@@ -118,10 +125,10 @@ func (tv *tview) node(n resolve.Node, t *gast.Type, sets []gast.SelectionSet, v 
 		}
 		if v != nil && v.k == jArr {
 			for i, it := range v.arr {
-				tv.node(arr.Item, t.Elem, sets, it, stack, rts, pathAppend(path, i), "", true)
+				tv.node(arr.Item, t.Elem, sets, it, stack, rts, pathAppend(path, i), "", true, cf)
 			}
 		} else {
-			tv.node(arr.Item, t.Elem, sets, nil, stack, rts, pathAppend(path, 0), "", true)
+			tv.node(arr.Item, t.Elem, sets, nil, stack, rts, pathAppend(path, 0), "", true, cf)
 		}
 		return
 	}
@@ -177,10 +184,10 @@ func (tv *tview) node(n resolve.Node, t *gast.Type, sets []gast.SelectionSet, v 
 	if obj.Unresolvable {
 		tv.add(path, "node-kind", "plan object marked Unresolvable")
 	}
-	tv.object(obj, t, sets, v, stack, rts, path, false)
+	tv.object(obj, t, sets, v, stack, rts, path, false, cf)
 }
 
-func (tv *tview) object(obj *resolve.Object, t *gast.Type, sets []gast.SelectionSet, v *jv, stack []*string, rts []string, path []any, root bool) {
+func (tv *tview) object(obj *resolve.Object, t *gast.Type, sets []gast.SelectionSet, v *jv, stack []*string, rts []string, path []any, root bool, cf crossFlags) {
 	if v == nil || v.k != jObj {
 		return
 	}
@@ -204,7 +211,7 @@ func (tv *tview) object(obj *resolve.Object, t *gast.Type, sets []gast.Selection
 		}
 	}
 	li := tv.m.levelInfo(sets, def.Name)
-	unionTN := def.IsAbstractType() && li.abstractFrags > 0 && li.unionTypename > 0
+	cross := tv.m.crossMerged(sets, def.Name)
 	planFields := selectedByPlan(obj, stack)
 	planFilled := map[string]bool{}
 	for _, f := range selectedByPlan(obj, filled) {
@@ -226,7 +233,8 @@ func (tv *tview) object(obj *resolve.Object, t *gast.Type, sets []gast.Selection
 		pf, ok := byKey[f.key]
 		if !ok {
 			u := tv.add(path, "key-missing-in-plan", "operation selects %q (%s) for runtime type %s (__typename in data: %s), plan does not%s", f.key, f.name, rt, tnText(tn), conditionsOf(obj, f.key))
-			u.typenameField, u.unionTNClass, u.absentTypename = f.name == "__typename", unionTN, planFilled[f.key]
+			u.typenameField, u.level, u.absentTypename = f.name == "__typename", li, planFilled[f.key]
+			tv.mergeAttrs(u, obj, f.key, cf, path)
 			continue
 		}
 		if f.name == "__typename" {
@@ -244,15 +252,30 @@ func (tv *tview) object(obj *resolve.Object, t *gast.Type, sets []gast.Selection
 			}
 			continue
 		}
-		tv.node(pf.Value, f.typ, f.sets, v.get(f.key), stack, rts, pathAppend(path, f.key), f.key, false)
+		_, crossed := cross[f.key]
+		tv.node(pf.Value, f.typ, f.sets, v.get(f.key), stack, rts, pathAppend(path, f.key), f.key, false, crossFlags{parent: crossed, above: crossed || cf.above})
 	}
 	for _, f := range planFields {
 		if !opKeys[string(f.Name)] {
 			u := tv.add(path, "key-extra-in-plan", "plan renders %q for runtime type %s (__typename in data: %s), operation does not select it%s", f.Name, rt, tnText(tn), conditionsOf(obj, string(f.Name)))
 			_, isStr := f.Value.(*resolve.String)
-			u.typenameField, u.unionTNClass = isStr && f.Value.(*resolve.String).IsTypeName, unionTN
+			u.typenameField, u.level = isStr && f.Value.(*resolve.String).IsTypeName, li
+			tv.mergeAttrs(u, obj, string(f.Name), cf, path)
 		}
 	}
+}
+
+func (tv *tview) mergeAttrs(u *unfaithful, obj *resolve.Object, key string, cf crossFlags, path []any) {
+	u.crossParent, u.crossAbove = cf.parent, cf.above
+	for _, f := range obj.Fields {
+		if string(f.Name) == key {
+			u.planHasKey = true
+			if len(f.ParentOnTypeNames) > 0 {
+				u.planParentConds = true
+			}
+		}
+	}
+	u.nestedListItem = len(path) >= 2 && isInt(path[len(path)-1]) && isInt(path[len(path)-2])
 }
 
 func tnText(tn *string) string {
